@@ -531,13 +531,14 @@ class BaseParser:
                 k = str(k)
                 if k.lower() in self.case_insensitive_names:
                     lk = k.lower()
-                    if lk in _data and not options.ignore_alias_conflicts and _data[lk] != v:
-                        # the same name given in two letter cases with different values
-                        # is an alias conflict (as in data_first_parse), keep the first one
-                        field = self.get_field(lk)
-                        if field and not field.is_no_input(v, options=options):
-                            context.handle_error(exc.AliasConflictError(
-                                item=field.attname if as_attname else field.name, value=v))
+                    if lk in _data and not options.ignore_alias_conflicts:
+                        # the same name given in two letter cases: keep the first one,
+                        # different values are an alias conflict (as in data_first_parse)
+                        if _data[lk] != v:
+                            field = self.get_field(lk)
+                            if field and not field.is_no_input(v, options=options):
+                                context.handle_error(exc.AliasConflictError(
+                                    item=field.attname if as_attname else field.name, value=v))
                         continue
                     _data[lk] = v
                 else:
